@@ -7,12 +7,18 @@
    strictly monotone image of the property's precedence levels with every operator on its level;
    the call-site precedences of parseExpression (right operand at the operator's own level, ternary
    branches, assignment value at LOWEST) are pinned by Proofs/GenTie.v.
-   Decided by the check on generated instances (syntactic half, not a theorem yet): the printer's
-   output for a tree - any layout of blanks, newlines, redundant parentheses - is parsed back to
-   that tree by the lexer + Pratt parser (model = implementation on every case; implementation
-   output = text of the specification value). *)
+   Proved here (syntactic half, on the parser model): for EVERY concrete syntax tree that respects
+   the binding powers read from parser.go (Pratt.wf: atoms, parentheses - redundant or not -, the
+   11 binary operators, prefix - and !, postfix ++ and --, the ternary, indexing, property access,
+   method calls and array literals with any number of arguments), the token sequence of the tree
+   parses to exactly the AST of the tree, with whatever fuel the parser returns and in particular
+   with the fuel parse_tokens allots; two neighbouring binary operators group to the left exactly
+   when the second does not bind tighter.
+   Decided by the check on generated instances: that blanks and newlines do not change the token
+   sequence (lexer model = lexer on every generated layout), object literals, and that the models
+   are the implementation (implementation output = text of the specification value). *)
 From Coq Require Import String.
-From TW Require Import Bytes Floats Values Ast GenToken GenParser Lexer Parser Builtins Eval Expr ExprSem GenTie.
+From TW Require Import Bytes Floats Values Ast GenToken GenParser Lexer Parser Builtins Eval Expr ExprSem GenTie Pratt ExprPipeline.
 Open Scope N_scope.
 
 (* en is the chain of scopes (innermost first); the specification sees it flattened, so an inner
@@ -56,6 +62,95 @@ Proof.
   apply Z.leb_le in E. exfalso. apply (Z.lt_irrefl max_int64). eapply Z.lt_le_trans; eassumption.
 Qed.
 Print Assumptions C01_out_of_range_literal_is_rejected.
+
+(* ---- syntactic half *)
+
+(* the tokens of a well-formed tree, followed by a token that cannot continue an expression,
+   parse (for all sufficiently large fuel) to the AST of the tree; the parser stops on the last
+   token of the tree *)
+Theorem C01_parser_groups_by_the_table c st rest :
+  wf c -> stops P_LOWEST rest -> (rdot c = true -> not_lparen rest) ->
+  exists n, forall fuel, (n <= fuel)%nat ->
+    parseExpression fuel P_LOWEST (setToks st (flat c ++ rest)) = POk (ast c) (setToks st (lastc c :: rest)).
+Proof. exact (parse_of_tokens_is_the_tree c st rest). Qed.
+Print Assumptions C01_parser_groups_by_the_table.
+
+(* with any fuel: if the parser returns at all, it returns the tree *)
+Theorem C01_parser_returns_the_tree c st rest fuel r s :
+  wf c -> stops P_LOWEST rest -> (rdot c = true -> not_lparen rest) ->
+  parseExpression fuel P_LOWEST (setToks st (flat c ++ rest)) = POk r s ->
+  r = ast c /\ s = setToks st (lastc c :: rest).
+Proof. exact (parse_returns_the_tree c st rest fuel r s). Qed.
+Print Assumptions C01_parser_returns_the_tree.
+
+(* the whole statement {{ c }} with the fuel the model really uses *)
+Theorem C01_braces_statement_is_the_tree c lb rb eof :
+  wf c -> ttype lb = T_LBRACES -> ttype rb = T_RBRACES -> ttype eof = T_EOF ->
+  parse_tokens (lb :: flat c ++ [rb; eof]) = ParsedOk (mkProgram [SExpr (ast c)] None [] [] []).
+Proof. exact (braces_block_parses c lb rb eof). Qed.
+Print Assumptions C01_braces_statement_is_the_tree.
+
+(* left to right within a level, tighter operators first *)
+Theorem C01_two_neighbouring_operators a b c o1 o2 :
+  atom_ast a <> None -> atom_ast b <> None -> atom_ast c <> None ->
+  infix_of (ttype o1) = Some IK_Infix -> infix_of (ttype o2) = Some IK_Infix ->
+  let t := if (tprec o2 <=? tprec o1)%nat
+           then CBin o2 (CBin o1 (CAtom a) (CAtom b)) (CAtom c)
+           else CBin o1 (CAtom a) (CBin o2 (CAtom b) (CAtom c)) in
+  wf t /\ flat t = [a; o1; b; o2; c].
+Proof. exact (two_operators a b c o1 o2). Qed.
+Print Assumptions C01_two_neighbouring_operators.
+
+(* non-vacuity on the real lexer's output: the tokens of  {{ (8 / 2 * 2) - -x.n[0] ? a.f(1, 2) : [3] }}
+   are the tokens of a well-formed tree *)
+Example C01_lexed_source_is_a_tree :
+  exists lb rb eof c,
+    lex_all (bs "{{ (8 / 2 * 2) - -x.n[0] ? a.f(1, 2) : [3] }}") = Some (lb :: flat c ++ [rb; eof]) /\
+    ttype lb = T_LBRACES /\ ttype rb = T_RBRACES /\ ttype eof = T_EOF /\ wf c /\
+    parse_tokens (lb :: flat c ++ [rb; eof]) = ParsedOk (mkProgram [SExpr (ast c)] None [] [] []).
+Proof.
+  destruct (lex_all (bs "{{ (8 / 2 * 2) - -x.n[0] ? a.f(1, 2) : [3] }}")) as [ts|] eqn:E; [|vm_compute in E; discriminate E].
+  vm_compute in E. injection E as <-.
+  match goal with |- exists lb rb eof c, Some (?t0 :: ?lp :: ?t8 :: ?dv :: ?t2 :: ?ml :: ?t2' :: ?rp :: ?mi :: ?ng :: ?x :: ?d1 :: ?n :: ?lk :: ?z :: ?rk :: ?q :: ?a :: ?d2 :: ?f :: ?l2 :: ?one :: ?cm :: ?two :: ?r2 :: ?col :: ?l3 :: ?three :: ?r3 :: ?rbt :: ?eoft :: nil) = _ /\ _ =>
+    exists t0, rbt, eoft,
+      (CTern q col
+         (CBin mi (CPar lp rp (CBin ml (CBin dv (CAtom t8) (CAtom t2)) (CAtom t2')))
+                  (CIdx lk rk (CDot d1 n (CPre ng (CAtom x))) (CAtom z)))
+         (CCall d2 f l2 r2 (CAtom a) [(cm, CAtom one); (cm, CAtom two)])
+         (CArr l3 r3 [(cm, CAtom three)]))
+  end.
+  split; [reflexivity|]. split; [reflexivity|]. split; [reflexivity|]. split; [reflexivity|].
+  match goal with |- wf ?c /\ _ => assert (W : wf c) end; [|split; [exact W|apply braces_block_parses; [exact W|reflexivity..]]].
+  cbn [wf wf_list_with llev rlev]. unfold tprec, INF. cbn [ttype].
+  repeat split; try reflexivity; try discriminate; try (vm_compute; lia); try (left; reflexivity); try (right; reflexivity).
+Qed.
+
+(* ---- both halves: from the tokens of {{ c }} to the value of the expression c spells *)
+Theorem C01_tokens_to_value c e lb rb eof (en : env) fs :
+  wf c -> den c e -> lits_ok e -> (size e <= fs)%nat ->
+  ttype lb = T_LBRACES -> ttype rb = T_RBRACES -> ttype eof = T_EOF ->
+  parse_tokens (lb :: flat c ++ [rb; eof]) = ParsedOk (mkProgram [SExpr (compile e)] None [] [] []) /\
+  exists n, forall fm, (n <= fm)%nat ->
+    meets (eval_expr cx0 fm en (compile e)) (sem model_call_spec fs (flat_env en) e).
+Proof. exact (braces_block_evaluates c e lb rb eof en fs). Qed.
+Print Assumptions C01_tokens_to_value.
+
+(* non-vacuity: the lexed source  {{ 8 / 2 * 2 - x }}  spells (8 / 2 * 2) - x *)
+Example C01_lexed_source_spells_an_expression :
+  exists lb rb eof c,
+    lex_all (bs "{{ 8 / 2 * 2 - x }}") = Some (lb :: flat c ++ [rb; eof]) /\ wf c /\
+    den c (XBin BSub (XBin BMul (XBin BDiv (XInt 8) (XInt 2)) (XInt 2)) (XVar (bs "x"))).
+Proof.
+  destruct (lex_all (bs "{{ 8 / 2 * 2 - x }}")) as [ts|] eqn:E; [|vm_compute in E; discriminate E].
+  vm_compute in E. injection E as <-.
+  match goal with |- exists lb rb eof c, Some (?t0 :: ?t8 :: ?dv :: ?t2 :: ?ml :: ?t2' :: ?mi :: ?x :: ?rbt :: ?eoft :: nil) = _ /\ _ =>
+    exists t0, rbt, eoft, (CBin mi (CBin ml (CBin dv (CAtom t8) (CAtom t2)) (CAtom t2')) (CAtom x))
+  end.
+  split; [reflexivity|]. split.
+  - cbn [wf llev rlev]. unfold tprec, INF. cbn [ttype].
+    repeat split; try reflexivity; try discriminate; try (vm_compute; lia).
+  - cbn [den]. repeat split; reflexivity.
+Qed.
 
 Example C01_example :
   sem model_call_spec 10 [] (XBin BMul (XBin BDiv (XInt 8) (XInt 2)) (XInt 2)) = SVal (VInt 8) /\
